@@ -1122,7 +1122,10 @@ func (s *vsSess) step(st vsStep) vsObs {
 		if !s.settle() {
 			return vsObs{"st": "timeout"}
 		}
-		return vsObs{"st": "ok", "was_parked": was}
+		o := s.state() // the state after the failed Write (compared with the model's)
+		o["st"] = "ok"
+		o["was_parked"] = was
+		return o
 	case "peer_read":
 		// the peer takes exactly n raw bytes off the wire (recorded in final.raw_hex)
 		if s.peer == nil {
